@@ -586,7 +586,14 @@ class BasePool(typing.Generic[C]):
         started_at: float,
     ) -> None:
         self._log_to_snapshot(dbname=from_block.dbname, event='transfer-from')
-        await self._disconnect(from_conn, from_block)
+        try:
+            await self._disconnect(from_conn, from_block)
+        except Exception:
+            # _disconnect() has accounted for the failure and released the
+            # capacity of the old connection either way. The target block is
+            # still owed the connection we promised it in
+            # _schedule_transfer() (to_block.pending_conns), so carry on.
+            pass
         from_block.log_connection('transferred out')
         self._cur_capacity += 1
         await self._connect(to_block, started_at, 'transferred in')
